@@ -241,6 +241,17 @@ impl Agg {
         }
     }
 
+    /// a run that observed too little of what its monitors are about is inconclusive, not a pass
+    pub fn require(&mut self, counter: &str, min: u64) {
+        if self.cfg.only.is_some() {
+            return;
+        }
+        let n = self.counters.get(counter).cloned().unwrap_or(0);
+        if n < min {
+            self.harness_errors.push(format!("observed too little: {counter} = {n}, at least {min} required for a verdict"));
+        }
+    }
+
     /// finish: write evidence + replays, print verdict lines, return the process exit code
     pub fn finish(self, level: &str, rule: &str, min_nontrivial: u64, assumptions: &[&str], extra: Value) -> i32 {
         let wall = self.start.elapsed().as_secs_f64();
